@@ -1,4 +1,4 @@
 From Coq Require Import Extraction ExtrOcamlBasic ZArith.
 From Texel Require Import Search.Score Search.TBRules.
 Extraction Language OCaml.
-Extraction "tb_model.ml" rule50Margin tbProbe_ondemand swindleScore.
+Extraction "tb_model.ml" rule50Margin tbProbe_ondemand swindleScore probe_of tb_site tb_node tbAdjust label_score best_of.
